@@ -347,8 +347,14 @@ func (f *For) String() string {
 	// Full style for loop
 	out.WriteString("for ")
 	out.WriteString(f.init.String() + "; ")
-	out.WriteString(f.condition.String() + "; ")
-	out.WriteString(f.post.String())
+	if f.condition != nil {
+		out.WriteString(f.condition.String())
+	}
+	out.WriteString("; ")
+	if f.post != nil {
+		// The parser accepts "for init; cond; {" with no post statement
+		out.WriteString(f.post.String())
+	}
 	out.WriteString(" { ")
 	out.WriteString(f.consequence.String())
 	out.WriteString(" }")
